@@ -340,11 +340,11 @@ impl TestCaseConfig {
                 .or_else(|| defaults.output_stream.clone()),
             keep_crlf: self.keep_crlf.or(defaults.keep_crlf),
             timeout: self.timeout.or(defaults.timeout),
-            environment: self
+            environment: defaults
                 .environment
                 .clone()
                 .into_iter()
-                .chain(defaults.environment.clone())
+                .chain(self.environment.clone())
                 .collect(),
             detached: self.detached.or(defaults.detached),
             wait: self.wait.clone().or_else(|| defaults.wait.clone()),
